@@ -7,5 +7,6 @@ type syntaxQueryParamLiteral struct {
 func (l *syntaxQueryParamLiteral) compute(
 	_ interface{}, _ []interface{}) []interface{} {
 
-	return l.literal
+	// The comparators overwrite the list they are given, so hand out a copy.
+	return []interface{}{l.literal[0]}
 }
